@@ -330,20 +330,32 @@ func translate(context Context, args ...Result) (Result, error) {
 	}
 
 	src := args[0].String()
-	old := args[1].String()
-	new := args[2].String()
+	from := []rune(args[1].String())
+	to := []rune(args[2].String())
 
-	for i := range old {
-		r := ""
+	// Every character is mapped once, by its first occurrence in the second
+	// argument, to the character at the same position in the third argument,
+	// or removed when there is none.
+	ret := strings.Builder{}
 
-		if i < len(new) {
-			r = string(new[i])
+	for _, r := range src {
+		index := -1
+
+		for i := range from {
+			if from[i] == r {
+				index = i
+				break
+			}
 		}
 
-		src = strings.Replace(src, string(old[i]), r, -1)
+		if index < 0 {
+			ret.WriteRune(r)
+		} else if index < len(to) {
+			ret.WriteRune(to[index])
+		}
 	}
 
-	return String(src), nil
+	return String(ret.String()), nil
 }
 
 func boolean(context Context, args ...Result) (Result, error) {
